@@ -92,6 +92,12 @@ def cmd_run(a):
     if xc["mismatches"]:
         print(f"HARNESS-ERROR: non-deterministic runs {xc['mismatches'][:10]}", flush=True)
         return 2
+    # sensitivity canaries: the same engine against a deliberately broken variant must raise the alarm
+    ncan = 480 if tier == "quick" else 1600
+    can = engine.run_batch(mod, ns, ncan, batch_seed + 1, tier, workers, 120, dict(opts, canary=True))
+    canary = {"what": getattr(mod, "CANARY", ""), "runs": can["done"], "flagged": len(can["violations"]),
+              "not_applicable": can["agg"].get("probes", {}).get("canary_not_applicable", 0)}
+    print(f"[{a.prop}] sensitivity canary: {canary['flagged']} of {canary['runs']} deliberately broken runs flagged", flush=True)
     # thorough tier: second search strategy over the same scenario space (Hypothesis-driven generator)
     hyp_out = None
     if tier == "thorough" and not a.no_hypothesis:
@@ -146,6 +152,12 @@ def cmd_run(a):
     ev = mod.evidence(out, tier=tier, seed=batch_seed, wall=wall, wall_batch=wall_batch, cross=xc,
                       known_hits={fp: n for fp, (kf, n) in known_hits.items()},
                       violations=sum(len(x) for x in reported.values()), workers=workers, ns=ns)
+    ev["coverage"]["sensitivity_canary"] = canary
+    if canary["flagged"] == 0:
+        ev["coverage"].setdefault("warnings", []).append(
+            "the sensitivity canary could not be planted on this tree (no linear-solver call passes through the seam)"
+            if canary["not_applicable"] >= canary["runs"] > 0 else
+            "the sensitivity canary was not flagged in any run: on this tree the oracle may have lost sight of the state it watches")
     if incon:
         ev["coverage"].setdefault("warnings", []).append(
             f"{incon} scenario(s) were inconclusive (wall limit or set-up error on this tree) and count neither as pass nor as violation")
